@@ -27,6 +27,67 @@ def model_load_images_norm(r):
     return ["ok", [cells, comp, dump]]
 
 
+def legacy_suites(chk, rng, R, known, n):
+    """older images (1.0/1.1) and rpms (0.1-0.3) documents: implementation vs model readers + re-filing oracle"""
+    # legacy images documents with 'src' cells
+    docs = [{"doc": DL.gen_images_doc(rng, R)} for _ in range(n)]
+
+    def oracle_img(c, r):
+        doc = c["doc"]
+        ver = tuple(int(x) for x in doc["header"]["version"].split("."))
+        if r[0] != "ok":
+            if ver <= (1, 1):
+                return "a valid %s images document with 'src' cells was rejected: %r" % (doc["header"]["version"], r)
+            return None
+        cells, comp, dump = r[1]
+        for k in arch_keys(cells):
+            if k not in known or k in BAD:
+                return "loaded images manifest has the architecture key %r" % k
+        if ver <= (1, 1):
+            for v, arches in doc["payload"]["images"].items():
+                binary = [a for a in arches if a != "src"]
+                for img in arches.get("src", []):
+                    for a in binary:
+                        if img["path"] not in [o["path"] for o in cells.get(v, {}).get(a, [])]:
+                            return "source image %s of variant %s was not re-filed under %s" % (img["path"], v, a)
+        if dump[0] == "ok":
+            for k in arch_keys(dump[1]["payload"]["images"]):
+                if k in BAD:
+                    return "written manifest still has a %r key" % k
+        return None
+
+    core.differential(chk, "docs_legacy:images", docs, "load_images", model_cases=[c["doc"] for c in docs],
+                      impl_fn="impl_load_legacy_images", nontrivial=lambda c, r: r[0] == "ok" and any("src" in a for a in c["doc"]["payload"]["images"].values()),
+                      oracle=oracle_img, normalise=model_load_images_norm)
+    # rpms 0.3 documents
+    rdocs = [{"kind": "rpms", "doc": DL.gen_rpms_doc(rng, R)} for _ in range(n)]
+
+    def oracle_rpms(c, r):
+        if r[0] != "ok":
+            return "a valid %s rpms document was rejected: %r" % (c["doc"]["header"]["version"], r)
+        comp, payload, again = r[1]
+        for k in arch_keys(payload):
+            if k not in known or k in BAD:
+                return "converted rpms manifest has the architecture key %r" % k
+        man = c["doc"]["payload"]["manifest"]
+        for v, arches in man.items():
+            src = arches.get("src", {})
+            for a, tab in arches.items():
+                if a == "src":
+                    continue
+                for srpm, rpms in tab.items():
+                    if srpm in src and rpms:
+                        key = srpm[:-4] if srpm.endswith(".rpm") else srpm
+                        ent = payload.get(v, {}).get(a, {}).get(key, {}).get(key)
+                        if not ent or ent["category"] != "source" or ent["path"] != src[srpm]["path"]:
+                            return "source RPM %s was not re-filed under %s/%s" % (srpm, v, a)
+        return None
+
+    core.differential(chk, "docs_legacy:rpms", rdocs, "load_rpms", model_cases=[c["doc"] for c in rdocs],
+                      impl_fn="impl_load_rpms", nontrivial=lambda c, r: r[0] == "ok" and len(r[1][1]) >= 1, oracle=oracle_rpms,
+                      normalise=lambda r: ["ok", [r[1][0], r[1][1], (r[1][2][0] if isinstance(r[1][2], list) else r[1][2])]] if (isinstance(r, list) and r and r[0] == "ok") else r)
+
+
 def run(chk):
     chk.build(["Props/C10.vo"])
     rng = core.Rng(chk.seed * 7919 + 10)
@@ -68,63 +129,7 @@ def run(chk):
 
     core.differential(chk, "ops_manifests:rpms", rcases, "ops_rpms", model_cases=[c["ops"] for c in rcases],
                       nontrivial=lambda c, r: any(s[0] == "ok" for s in r), oracle=oracle_radd)
-    # legacy images documents with 'src' cells
-    docs = [{"doc": DL.gen_images_doc(rng, R)} for _ in range(N[chk.tier])]
-
-    def oracle_img(c, r):
-        doc = c["doc"]
-        ver = tuple(int(x) for x in doc["header"]["version"].split("."))
-        if r[0] != "ok":
-            if ver <= (1, 1):
-                return "a valid %s images document with 'src' cells was rejected: %r" % (doc["header"]["version"], r)
-            return None
-        cells, comp, dump = r[1]
-        for k in arch_keys(cells):
-            if k not in known or k in BAD:
-                return "loaded images manifest has the architecture key %r" % k
-        if ver <= (1, 1):
-            for v, arches in doc["payload"]["images"].items():
-                binary = [a for a in arches if a != "src"]
-                for img in arches.get("src", []):
-                    for a in binary:
-                        if img["path"] not in [o["path"] for o in cells.get(v, {}).get(a, [])]:
-                            return "source image %s of variant %s was not re-filed under %s" % (img["path"], v, a)
-        if dump[0] == "ok":
-            for k in arch_keys(dump[1]["payload"]["images"]):
-                if k in BAD:
-                    return "written manifest still has a %r key" % k
-        return None
-
-    core.differential(chk, "docs_legacy:images", docs, "load_images", model_cases=[c["doc"] for c in docs],
-                      impl_fn="impl_load_legacy_images", nontrivial=lambda c, r: r[0] == "ok" and any("src" in a for a in c["doc"]["payload"]["images"].values()),
-                      oracle=oracle_img, normalise=model_load_images_norm)
-    # rpms 0.3 documents
-    rdocs = [{"kind": "rpms", "doc": DL.gen_rpms_doc(rng, R)} for _ in range(N[chk.tier])]
-
-    def oracle_rpms(c, r):
-        if r[0] != "ok":
-            return "a valid %s rpms document was rejected: %r" % (c["doc"]["header"]["version"], r)
-        comp, payload, again = r[1]
-        for k in arch_keys(payload):
-            if k not in known or k in BAD:
-                return "converted rpms manifest has the architecture key %r" % k
-        man = c["doc"]["payload"]["manifest"]
-        for v, arches in man.items():
-            src = arches.get("src", {})
-            for a, tab in arches.items():
-                if a == "src":
-                    continue
-                for srpm, rpms in tab.items():
-                    if srpm in src and rpms:
-                        key = srpm[:-4] if srpm.endswith(".rpm") else srpm
-                        ent = payload.get(v, {}).get(a, {}).get(key, {}).get(key)
-                        if not ent or ent["category"] != "source" or ent["path"] != src[srpm]["path"]:
-                            return "source RPM %s was not re-filed under %s/%s" % (srpm, v, a)
-        return None
-
-    core.differential(chk, "docs_legacy:rpms", rdocs, "load_rpms", model_cases=[c["doc"] for c in rdocs],
-                      impl_fn="impl_load_rpms", nontrivial=lambda c, r: r[0] == "ok" and len(r[1][1]) >= 1, oracle=oracle_rpms,
-                      normalise=lambda r: ["ok", [r[1][0], r[1][1], (r[1][2][0] if isinstance(r[1][2], list) else r[1][2])]] if (isinstance(r, list) and r and r[0] == "ok") else r)
+    legacy_suites(chk, rng, R, known, N[chk.tier])
     return chk.finish(
         rule="add histories with known binary, src, nosrc and unknown architecture strings (images and rpms); images documents of "
              "format 1.0/1.1/1.2 and rpms documents of format 0.1-0.3 in which any subset of variants has a 'src' entry next to "
